@@ -276,7 +276,8 @@ class TxnArray(Array):
 
     def __getitem__(self, index: Union[int, Expr]) -> TxnaExpr:
         if type(index) is int:
-            if index < 0:
+            if index < 0 or index > 255:
+                # a constant index is encoded as a one-byte immediate
                 raise TealInputError("Invalid array index: {}".format(index))
         else:
             require_type(cast(Expr, index), TealType.uint64)
